@@ -6,5 +6,5 @@ export CARGO_NET_OFFLINE=true
 mkdir -p build evidence replays
 if [ -f tools/translate.py ]; then python3 tools/translate.py; fi
 (cd lean && lake build RosuModel driver)
-(cd harness && cargo build --offline --release --target-dir /verif/build/target)
+(cd harness && cargo build --offline --release --target-dir "$(pwd)/../build/target")
 echo "setup ok"
